@@ -32,6 +32,7 @@ type labCfg struct {
 	Name          string         `json:"name"`
 	DialogTimeout int            `json:"dialog_timeout,omitempty"`
 	Keep          string         `json:"keep_next_hop_route,omitempty"`
+	KeepEnv       string         `json:"keep_next_hop_route_env,omitempty"`
 	Listens       []labListenCfg `json:"listens"`
 	Routes        []labRouteCfg  `json:"route,omitempty"`
 	Hosts         [][2]string    `json:"hosts,omitempty"`
@@ -99,7 +100,11 @@ func (c labCfg) YAML() string {
 }
 
 func (c labCfg) keepOn() bool {
-	switch strings.ToLower(c.Keep) {
+	k := c.Keep
+	if k == "" {
+		k = c.KeepEnv
+	}
+	switch strings.ToLower(k) {
 	case "true", "yes", "1", "on", "t", "y":
 		return true
 	}
